@@ -210,7 +210,8 @@ def preset_tags(pers):
 
 
 FRESH_OPS = ["read1", "read2", "write1", "bitwrite", "readfrag", "writefrag", "generic", "upload",
-             "upload_refused1", "upload_refused2", "readfrag_refused2", "writefrag_refused2", "read2_refused1", "write1_refused1"]
+             "upload_refused1", "upload_refused2", "readfrag_refused2", "writefrag_refused2", "read2_refused1", "write1_refused1",
+             "read1_lost_reply", "write1_lost_reply", "readfrag_lost_reply2", "generic_lost_reply"]
 
 
 def fresh_histories(rep, pers, init_tags, tier):
@@ -236,6 +237,14 @@ def fresh_histories(rep, pers, init_tags, tier):
         finally:
             ctl.status_hook = None
 
+    def losing(w, nth_recv, thunk):
+        """The reply to the n-th message of the operation never arrives (that receive times out); the connection stays usable."""
+        w.arm({2 * nth_recv - 1: "reply_lost"})  # I/O alternates send, recv
+        try:
+            return thunk()
+        finally:
+            w.disarm()
+
     hists = [(a,) for a in FRESH_OPS] + list(itertools.product(FRESH_OPS, repeat=2))
     if tier == "thorough":
         sub = ["read1", "readfrag", "upload_refused1", "readfrag_refused2", "write1", "generic"]
@@ -255,6 +264,9 @@ def fresh_histories(rep, pers, init_tags, tier):
                 "upload_refused1": lambda: refusing(ctl, (0x55,), 1, d.get_tag_list), "upload_refused2": lambda: refusing(ctl, (0x55,), 2, d.get_tag_list),
                 "readfrag_refused2": lambda: refusing(ctl, (0x52,), 2, lambda: d.read("big_int{2100}")), "writefrag_refused2": lambda: refusing(ctl, (0x53,), 2, lambda: d.write("big_int{2100}", big)),
                 "read2_refused1": lambda: refusing(ctl, (0x4C,), 1, lambda: d.read("plain", "plain2")), "write1_refused1": lambda: refusing(ctl, (0x4D,), 1, lambda: d.write("plain", 7)),
+                "read1_lost_reply": lambda: losing(w, 1, lambda: d.read("plain")), "write1_lost_reply": lambda: losing(w, 1, lambda: d.write("plain", 7)),
+                "readfrag_lost_reply2": lambda: losing(w, 2, lambda: d.read("big_int{2100}")),
+                "generic_lost_reply": lambda: losing(w, 1, lambda: d.generic_message(service=0x0E, class_code=0x99, instance=1, attribute=1)),
             }
             o = call(d.open)
             outs = []
@@ -282,6 +294,7 @@ def window():
 def shards(tier, seed):
     big = BIG_CALLS if tier == "thorough" else BIG_CALLS[:2]
     return [("sweep", op) for op in ALL_OPS] + [("mixed", k) for k in ("logix", "slc")] + [("bigcall", op, k) for k in big for op in ("read", "write")] \
+        + [("bigcall", op, k) for k in (WRAP, WRAP - 1) for op in ("read-packets", "write-packets")] \
         + [("fresh", pers, it) for pers in ("m800", "v32", "v20") for it in (False, True)]
 
 
@@ -317,11 +330,29 @@ def run_shard(shard, tier, seed):
             n0 = len(conn.seqs)
             n_ev = len(t.events)
             w.io_budget = w.io_total + 40 * k
-            out = call(d.read, *(["plain"] * k)) if op == "read" else call(d.write, *([("plain", 7)] * k))
+            if op == "read":
+                out = call(d.read, *(["plain"] * k))
+            elif op == "write":
+                out = call(d.write, *([("plain", 7)] * k))
+            else:
+                # k requests that each fill a packet of their own, and one fragmented transfer in front of / behind them:
+                # k whole packets lie between the moment the fragmented request is built and the moment it is sent
+                front = start in (30, 1)
+                if op == "read-packets":
+                    reqs = ["big_int{230}"] * k
+                    reqs = ["big_int{2100}"] + reqs if front else reqs + ["big_int{2100}"]
+                    out = call(d.read, *reqs)
+                else:
+                    one, big = ("big_int{230}", [5] * 230), ("big_int{2100}", [6] * 2100)
+                    reqs = [one] * k
+                    reqs = [big] + reqs if front else reqs + [big]
+                    out = call(d.write, *reqs)
+                k_res = k + 1
             seqs = conn.seqs[n0 - 1:]
             dup = next((i for i, (a, b) in enumerate(zip(seqs, seqs[1:])) if a == b), None)
             flagged = [e for e in t.events[n_ev:] if e[0].startswith("C17")]
-            ok = out[0] == "ok" and isinstance(out[1], list) and len(out[1]) == k and all(out[1]) and dup is None and not flagged
+            n_res = k + 1 if op.endswith("-packets") else k
+            ok = out[0] == "ok" and isinstance(out[1], list) and len(out[1]) == n_res and all(out[1]) and dup is None and not flagged
             rep.case(("bigcall", op, k, start), outcome="ok" if ok else "bad", calls=len(seqs) - 1)
             if not ok:
                 what = f"message #{dup + 1} of the call repeats the count {seqs[dup]} of the message before it" if dup is not None else (flagged[0][1] if flagged else f"result {out!r:.80}")
